@@ -60,14 +60,17 @@ VARIABLES log,      \* log[n]   : sequence of tx ids
           coord,    \* coord[tx] : [c, k, ok (set of nodes counted), phase, count] or none
           acked,    \* transactions acknowledged to the client as successful
           nview, ndup, ncrash, nlose, h,
+          cc,       \* cc[n]    : per sequence, the count written when the event was appended on n (the count in the
+                    \* commit record of a multi-event transaction is this one: later confirmations rewrite the event
+                    \* records only)
           cu        \* ghost: catch-up attempts so far: "none", "plain", "ahead" (the replica's log was ahead of its
                     \* replicator), "refused" (the first served commit was refused)
-vars == <<log, cnt, nxt, buf, up, view, msgs, coord, acked, nview, ndup, ncrash, nlose, h, cu>>
+vars == <<log, cnt, nxt, buf, up, view, msgs, coord, acked, nview, ndup, ncrash, nlose, h, cu, cc>>
 
 NoCoord == [c |-> CHOOSE n \in Node : TRUE, k |-> 0, ok |-> {}, phase |-> "none", count |-> 0]
 
 Init ==
-    /\ log = [n \in Node |-> << >>] /\ cnt = [n \in Node |-> << >>]
+    /\ log = [n \in Node |-> << >>] /\ cnt = [n \in Node |-> << >>] /\ cc = [n \in Node |-> << >>]
     /\ nxt = [n \in Node |-> 0] /\ buf = [n \in Node |-> {}]
     /\ up = [n \in Node |-> TRUE] /\ view = [n \in Node |-> Node]
     /\ msgs = {} /\ coord = [t \in TxId |-> NoCoord] /\ acked = {}
@@ -221,7 +224,10 @@ CatchUp(r) ==
                              versionOk == SCount(l, TxStream[t]) = SCount(SubSeq(log[c], 1, i), TxStream[t])
                              seqOk == ~PinSeq \/ Len(l) = i
                          IN IF versionOk /\ seqOk
-                            THEN Apply(l \o Rep(Txs[t], t), cs \o Rep(Txs[t], cnt[c][i + 1]), Len(l) + Txs[t], i + Txs[t])
+                            \* the count served with a commit: the event's for a single event, the commit record's (never
+                            \* rewritten after the append) for a multi-event transaction
+                            THEN Apply(l \o Rep(Txs[t], t), cs \o Rep(Txs[t], IF Txs[t] = 1 THEN cnt[c][i + 1] ELSE cc[c][i + 1]),
+                                       Len(l) + Txs[t], i + Txs[t])
                             ELSE [log |-> l, cnt |-> cs, nxt |-> nx, all |-> FALSE]
                     ELSE [log |-> l, cnt |-> cs, nxt |-> nx, all |-> TRUE]
                  got == Apply(log[r], cnt[r], nxt[r], nxt[r])
@@ -265,12 +271,14 @@ Restart(n) ==
     /\ h' = Append(h, [op |-> "restart", n |-> n])
     /\ UNCHANGED <<log, cnt, buf, view, msgs, coord, acked, nview, ndup, ncrash, nlose, cu>>
 
+\* whatever is appended anywhere records the count it was appended with
+CCNext == cc' = [n \in Node |-> cc[n] \o SubSeq(cnt'[n], Len(cc[n]) + 1, Len(cnt'[n]))]
 Next ==
-    \/ \E t \in TxId, c \in Node : ClientWrite(t, c)
-    \/ \E m \in msgs : (\E keep \in BOOLEAN : RecvReplicate(m, keep) \/ RecvConfirm(m, keep)) \/ RecvReply(m) \/ Lose(m)
-    \/ \E t \in TxId : GiveUp(t)
-    \/ \E r \in Node : CatchUp(r) \/ Crash(r) \/ Restart(r)
-    \/ \E n \in Node : \E v \in SUBSET Node : ViewChange(n, v)
+    \/ \E t \in TxId, c \in Node : ClientWrite(t, c) /\ CCNext
+    \/ \E m \in msgs : ((\E keep \in BOOLEAN : RecvReplicate(m, keep) \/ RecvConfirm(m, keep)) \/ RecvReply(m) \/ Lose(m)) /\ CCNext
+    \/ \E t \in TxId : GiveUp(t) /\ CCNext
+    \/ \E r \in Node : (CatchUp(r) \/ Crash(r) \/ Restart(r)) /\ CCNext
+    \/ \E n \in Node : \E v \in SUBSET Node : ViewChange(n, v) /\ CCNext
 Spec == Init /\ [][Next]_vars
 
 ----------------------------------------------------------------------------
@@ -297,5 +305,5 @@ QuorumCountMeansQuorumHeld ==
         cnt[n][i] >= Quorum => Cardinality({m \in Node : i <= Len(log[m]) /\ log[m][i] = log[n][i]}) >= Quorum
 CntShape == \A n \in Node : Len(cnt[n]) = Len(log[n])
 
-View == <<log, cnt, nxt, buf, up, view, msgs, coord, acked, nview, ndup, ncrash, nlose, cu>>
+View == <<log, cnt, nxt, buf, up, view, msgs, coord, acked, nview, ndup, ncrash, nlose, cu, cc>>
 =============================================================================
